@@ -60,6 +60,9 @@ type LockState struct {
 	readersUnmgd int
 	pendingW     int
 	site         string
+	// grantedR: the readers that were already waiting when the last writer unlocked. As in sync.RWMutex they go
+	// first: a second writer still queues for the writers' mutex at that moment and has not announced itself.
+	grantedR map[*Thread]bool
 }
 
 // Step records one scheduling decision.
